@@ -74,7 +74,8 @@ class NumEdit(Edit):
         """
         if len(ch) == 1:
             if ch.upper() in self._allowed:
-                return True
+                # nothing can be inserted in front of the leading minus
+                return not (self.edit_pos == 0 and self.edit_text[:1] == "-")
 
             return self._allow_negative and ch == "-" and self.edit_pos == 0 and "-" not in self.edit_text
         return False
